@@ -439,7 +439,9 @@ namespace Pistache::Http
             // This is the first time we are reading the payload
             else
             {
-                message->body_.reserve(contentLength);
+                // reserve what has arrived, not what the peer announces: the announced
+                // length is not bounded by the maximum request size
+                message->body_.reserve(std::min<size_t>(contentLength, cursor.remaining()));
                 if (!readBody(contentLength))
                     return State::Again;
             }
@@ -488,9 +490,10 @@ namespace Pistache::Http
                 return Final;
             }
 
-            message->body_.reserve(size);
             StreamCursor::Token chunkData(cursor);
             const ssize_t available = cursor.remaining();
+            // reserve what has arrived, not what the peer announces
+            message->body_.reserve(message->body_.size() + std::min<size_t>(size, available));
 
             if (available + alreadyAppendedChunkBytes < size + 2)
             {
